@@ -10,6 +10,7 @@ import (
 	_ "github.com/google/pprof/verif/checks/c06"
 	_ "github.com/google/pprof/verif/checks/c08"
 	_ "github.com/google/pprof/verif/checks/c11"
+	_ "github.com/google/pprof/verif/checks/c12"
 	_ "github.com/google/pprof/verif/checks/c14"
 	_ "github.com/google/pprof/verif/checks/c15"
 	_ "github.com/google/pprof/verif/checks/c17"
